@@ -5,6 +5,7 @@ package table
 import (
 	"time"
 
+	"github.com/grafana/carbon-relay-ng/aggregator"
 	"github.com/grafana/carbon-relay-ng/matcher"
 	"github.com/grafana/carbon-relay-ng/stats"
 	m20 "github.com/metrics20/go-metrics20/carbon20"
@@ -19,6 +20,15 @@ func VerifC19Table() {
 	all, _ := matcher.New("", "", "", "", "", "")
 	r := &verifCapRoute{key: "r", m: all}
 	t.AddRoute(r)
+	// an aggregation that matches everything: a rejected point must not contribute to any aggregate either
+	aggregator.InitMetrics()
+	am, _ := matcher.New("", "", "", "", ".*", "")
+	agg, aerr := aggregator.NewMocked("sum", am, "agg", false, 10, 20, false, make(chan []byte, 4), 4, verifNowFixed, make(chan time.Time))
+	if aerr != nil {
+		panic(aerr)
+	}
+	t.AddAggregator(agg)
+	aggIn := stats.Counter("unit=Metric.direction=in.aggregator=" + agg.Key)
 	base := verifName(2)
 	verifAssume(base[0] != '.' && base[1] != '.')
 	names := [][]byte{base, append([]byte{'.'}, base...)} // ".ab" is the same series as "ab"
@@ -38,14 +48,17 @@ func VerifC19Table() {
 		if w == 2 && !same {
 			reg = 1
 		}
-		n0, o0 := len(r.got), ooo.Count()
+		n0, o0, a0 := len(r.got), ooo.Count(), aggIn.Count()
 		t.Dispatch(line)
+		verifSettle()
 		if ts > last[reg] {
+			verifAssert(aggIn.Count() == a0+1, "newer-point-reaches-the-aggregation")
 			verifAssert(len(r.got) == n0+1, "newer-point-forwarded")
 			verifAssert(ooo.Count() == o0, "newer-point-not-counted")
 			last[reg] = ts
 		} else {
 			verifAssert(len(r.got) == n0, "not-newer-point-forwarded-nowhere")
+			verifAssert(aggIn.Count() == a0, "not-newer-point-reaches-no-aggregation")
 			verifAssert(ooo.Count() == o0+1, "not-newer-point-counted-out-of-order")
 			verifSettle()
 			recs := t.Bad().Get(24 * time.Hour)
